@@ -4,38 +4,29 @@ import glob, json, os, re
 VERIF = os.path.dirname(os.path.dirname(os.path.abspath(__file__)))
 summary = json.load(open(os.path.join(VERIF, "seeded", "summary.json")))
 rows = []
+nblind = 0
 for f in sorted(glob.glob(os.path.join(VERIF, "seeded", "*", "meta.json"))):
     m = json.load(open(f))
-    needs = summary.get(m["seed"], {}).get("needs", "")
-    what = summary.get(m["seed"], {}).get("what", "")
+    sm = summary.get(m["seed"], {})
     caught = ", ".join(m.get("caught_by") or []) or "**not caught**"
     how = ""
     for c in m.get("caught_by") or []:
         first = (m["checks"][c].get("first") or "").splitlines()
         if len(first) > 1:
-            how = first[1].strip()[:160].replace("|", "/")
+            how = first[1].strip()[:140].replace("|", "/")
             break
-    rows.append("| %s | %s | %s | %s | %s | %s |" % (m["seed"], m["property"], what, needs, "yes" if m.get("confirmed") else "NO", caught + (" - " + how if how else "")))
+    blind = "as built" if sm.get("blind") else "after strengthening: " + sm.get("strengthening", "")
+    nblind += 1 if sm.get("blind") else 0
+    rows.append("| %s | %s | %s | %s | %s | %s |" % (m["seed"], sm.get("what", ""), sm.get("needs", ""), "yes" if m.get("confirmed") else "NO", caught + (" - " + how if how else ""), blind))
 block = ["### 5.5 Seeded changes (written by sub-agents that saw only the property text; confirmed, then run against the checks)", "",
-         "Each change compiles, passes the repository's own suite, and comes with a demonstration that fails with the change and passes without it ",
-         "(`seeded/<id>/`: patch.diff, demonstration, notes.md, meta.json with the commands and what every check printed).", "",
-         "| seed | property | change | needs, to manifest | confirmed | caught by (quick tier) |", "|---|---|---|---|---|---|"] + rows + ["",
-    "Caught by the checks as they stood when the change arrived: C01, C02, C03, C04, C05, C09, C10, C11, C12, C13, C15, C16, C18, C19, C20 (15 of 20).",
-    "Four of the twenty were missed by the checks as first built, and the checks were strengthened (never the other way round):",
-    "",
-    "* C14 - no check ever had two tunnelled requests alive at once. Added `TestC14Overlap` (2-5 requests built through the public",
-    "  constructors before any is sent, each then de-tunnelled and compared with its own verb / path / query / body).",
-    "* C06 - the corpus had include chains but no two siblings sharing an intermediate include. Added include lattices",
-    "  (root with r required fields, intermediate adding m, three siblings each, two joins of two intermediates; (r, m) in",
-    "  {2+1, 3+1, 3+2, 1+1, 4+1}) to the codec corpus, which C01, C03, C06, C10, C13 all draw from.",
-    "* C17 - the resource world had no filters. Added the mount `filtered` (two filters recording what the documented context",
-    "  accessors return before and after the method, the PostRequest side after a yield) to C02 (serial) and C17 (concurrent).",
-    "* C07 - caught by C02 only after a resource whose alphabetically last fields are annotated leaves was added (`annlast`); for",
-    "  C07 itself `TestC07Envelope` now writes `entities` / `elements` envelopes of 1-4 entities the way the library's batch methods",
-    "  do (one `SetScope()` writer per entity) and compares every entity with its pruned model.",
-    "* C08's generator of error texts gained texts with percent signs before its seed was run (the seed's notes were read first, so",
-    "  this one does not count as a blind catch).",
-    ""]
+         "Two rounds of 20 (round 2, `CNNb`, was told the one-line description of the round-1 change and asked for a different mechanism). Each change",
+         "compiles, passes the repository's own suite, and comes with a demonstration that fails with the change and passes without it",
+         "(`seeded/<id>/`: patch.diff, demonstration, notes.md, meta.json with the commands and what every check printed). All %d are confirmed and" % len(rows),
+         "caught by the quick tier of their property's check; %d were caught by the checks as they stood when the change arrived, the others only after the" % nblind,
+         "check was strengthened (last column; a check was never loosened). The misses had two causes: a shape, sequence or configuration the generators did not",
+         "reach (sibling includes, overlapping requests, filters, deep trees, encode-while-filling, failing marshal first, second request, colliding unrequested",
+         "key, only-generated output directory, rich default literals), and once the driver (a crash in every shard was reported as inconclusive).", "",
+         "| seed | change | needs, to manifest | confirmed | caught by (quick tier) | caught |", "|---|---|---|---|---|---|"] + rows + [""]
 p = os.path.join(VERIF, "DESIGN.md")
 s = open(p).read()
 new = "<!-- SEEDED-TABLE-BEGIN -->\n" + "\n".join(block) + "\n<!-- SEEDED-TABLE-END -->"
